@@ -70,8 +70,10 @@ def run(ctx):
         f0 = np.array([float(sp.spline(coef, x)) for x in xi])
         width = sp.br[-1] - sp.br[0]
         shifts8 = [0, 1, -3, 8, -8, 5 * 8 // 2, 8 * width, -8 * width, 8 * width + 4, -(8 * width + 3), 3 * 8 * width + 1, rng.randint(-80, 80)]
-        for mode in ("fEq", "null", "periodic"):
-            op = VParallelAdvection([None, None, None, v], basis, c, mode)
+        for mode_arg in ("fEq", "null", "periodic", None):
+            # (None: the operator built without the argument, as the driver builds it - the documented default is the equilibrium mode)
+            mode = mode_arg or "fEq"
+            op = VParallelAdvection([None, None, None, v], basis, c, mode) if mode_arg else VParallelAdvection([None, None, None, v], basis, c)
             # the same operator object serves the whole sequence of calls; it contains runs with the SAME speed and different
             # time steps (and the same time step with different speeds): a step must depend on its arguments only
             plan = [(s8, rng.choice([0.5, 1.0, 2.0])) for s8 in (shifts8 + [8 * width])]        # incl. shifts of more than one and more than three domain widths
